@@ -127,6 +127,14 @@ def accessors(qr):
         md.set_energy(1, x)
         return md
     A["Mode.set_energy/get_energy"] = (mode_set, lambda o: o.get_energy(1, no_conversion=False))
+    def mol_diab(x):
+        mo = q.Molecule([0.0, 1.0, 1.2])
+        md = q.Mode(0.01)
+        mo.add_Mode(md)
+        mo.set_diabatic_coupling((1, 2), [x, [1]])
+        return mo
+    A["Molecule.set_diabatic_coupling/get_diabatic_coupling"] = (mol_diab, lambda o: o.get_diabatic_coupling((1, 2))[0][0])
+
     A["CorrelationFunction(reorg).get_reorganization_energy"] = (
         lambda x: q.CorrelationFunction(t, dict(ftype="OverdampedBrownian", reorg=x, cortime=50.0, T=300.0)),
         lambda o: o.get_reorganization_energy())
